@@ -4,6 +4,7 @@ import AcraModel.Proxy.MySQLLemmas
 import AcraModel.Envelope.SafeCompatSame
 import AcraModel.Envelope.ExampleOps
 import AcraModel.Proxy.LitCoderLemmas
+import AcraModel.Proxy.SqlPrepared
 import AcraModel.Generated.Wiring
 import AcraModel.Generated.StmtForms
 import AcraModel.Generated.PgCoder
@@ -685,7 +686,140 @@ theorem execute_resolves {α β : Type} (st : PState α β) (n portal : Name) (s
 theorem censored_not_pending {α β : Type} (st : PState α β) (s : α) :
     clStep st (.query s true) = some (st, false) := rfl
 
+/-! ## SQL-level prepared statements (PREPARE / EXECUTE / DEALLOCATE over the simple protocol) -/
+
+/-- **What the row handler looks at.** `PgProxy.handleQueryDataPacket` resolves the statement of a DataRow as
+`rowResolve` has it – the pending query text is parsed; if it is an `EXECUTE` the statement registered under
+that name is fetched from `proxy.registry` NOW; the settings are extracted from the result – and refers to nothing
+of the proxy but its protocol state (the queue), the registry, the settings extractor and the per-column chain;
+`PgProxy` has no field in which settings of an earlier row or statement could be kept. -/
+theorem fact_row_resolution :
+    PgCoder.pgRowResolution =
+      ["assign sqlQuery:=pendingPacket.(queryPacket).GetSQLQuery()", "assign sqlOnQuery:=postgresql.NewOnQueryObjectFromQuery(sqlQuery)",
+       "assign sqlStmt,err:=postgresql.ParseQuery(sqlQuery)", "if err!=nil", "return err", "end",
+       "if len(sqlStmt.Stmts)>0&&sqlStmt.Stmts[0].Stmt.GetExecuteStmt()!=nil", "var executeQuery=sqlStmt.Stmts[0].Stmt.GetExecuteStmt()",
+       "assign storedStatement,err:=proxy.registry.StatementByName(executeQuery.GetName())", "if err!=nil", "return err", "end",
+       "assign sqlOnQuery=postgresql.NewOnQueryObjectFromStatement(storedStatement.Query())", "end",
+       "assign encryptionSettings,err:=proxy.settingExtractor.GetEncryptorSettingsForQuery(sqlOnQuery)", "if err!=nil",
+       "assign encryptionSettings=nil", "end"] ∧
+    PgCoder.pgRowHandlerRefs = ["onColumnDecryption", "protocolState", "registry", "settingExtractor"] ∧
+    PgCoder.pgProxyFields = ["session", "clientConnection", "dbConnection", "stopClient", "ClientStopResponse", "ctx",
+      "queryObserverManager", "censor", "decryptionObserver", "protocolState", "setting", "clientIDObserverManager", "parser",
+      "settingExtractor", "registry"] := by decide
+
+/-- **How the SQL-level statements are registered**, as `sqlObserve` has it: `PREPARE` looks the name up first and
+refuses (`ErrStatementAlreadyInRegistry`) when it is found, otherwise adds the statement and runs the inner
+statement through the query observers; `EXECUTE` only looks the name up; `DEALLOCATE ALL` (empty name) deletes
+the named statements, `DEALLOCATE n` looks the name up and deletes it. -/
+theorem fact_sql_prepared_registry :
+    PgCoder.sqlPrepareCalls = ["registry.StatementByName", "registry.AddStatement", "queryObserver.OnQuery"] ∧
+    PgCoder.sqlPrepare.take 5 =
+      ["var prepareQuery=parseResult.Stmts[0].Stmt.GetPrepareStmt()", "var preparedStatementName=prepareQuery.GetName()",
+       "if assign _,err:=encryptor.registry.StatementByName(preparedStatementName); err==nil",
+       "return nil,false,ErrStatementAlreadyInRegistry", "end"] ∧
+    PgCoder.sqlExecuteCalls = ["registry.StatementByName", "queryObserver.OnBind"] ∧
+    PgCoder.sqlDeallocate =
+      ["var preparedStatementName=parseResult.Stmts[0].Stmt.GetDeallocateStmt().GetName()", "if preparedStatementName==\"\"",
+       "return nil,false,encryptor.registry.DeleteNamedStatements()", "end",
+       "if assign _,err:=encryptor.registry.StatementByName(preparedStatementName); err!=nil",
+       "return nil,false,ErrStatementNotPresentInRegistry", "end",
+       "return nil,false,encryptor.registry.DeleteStatement(preparedStatementName)"] := by decide
+
+/-- **The observer on the registry is `regEff` on what the row handler can see of it.** After
+`PreparedStatementsQuery.OnQuery` the name ↦ statement table the row handler reads (`StatementByName`) is: for
+`PREPARE n AS s` – `n ↦ s` added unless `n` was bound (then nothing changes: no overwrite); for `DEALLOCATE n` –
+`n` removed; for `DEALLOCATE ALL` – every named statement removed; unchanged otherwise. -/
+theorem sql_observe_registry {α β : Type} (r : Registry α β) (c : SqlCmd α) :
+    (sqlObserve r c).1.view = regEff r.view c := sqlObserve_view r c
+
+/-- **Row processing is a function of (registry, pending statement) only.** The statement whose settings a DataRow
+is processed with depends on nothing but the name ↦ statement table the registry shows and the entry at the front
+of the queue – two proxy states that agree on these resolve every row alike, whatever rows or statements they
+have processed before (the model has no memo; `fact_row_resolution` pins that the code has no place for one). -/
+theorem row_resolution_local {α β : Type} (r r' : Registry α β) (e : Entry (SSrc α β)) (q q' : List (Entry (SSrc α β)))
+    (h : r.view = r'.view) : rowResolve r (e :: q) = rowResolve r' (e :: q') := by
+  cases e with
+  | sync => rfl
+  | query s =>
+    cases s with
+    | extended s b => rfl
+    | sql c => simp only [rowResolve, h]
+
+/-- **sql_prepare_pairs.** In every run of the joint system proxy + PostgreSQL-conforming database with SQL-level
+prepared statements – `PREPARE` / `DEALLOCATE` sent when nothing is outstanding, `EXECUTE`, other statements and
+extended-protocol requests pipelined in any way, errors, Sync, ReadyForQuery – each DataRow is processed with the
+settings of exactly the statement the database is answering: for `EXECUTE n` the statement `n` is bound to AT THAT
+MOMENT in the database (names deallocated and prepared again with another statement included). -/
+theorem sql_prepare_pairs {α : Type} (evs : List (SJEv α)) (s : SJoint α) (obs : List (α × RowRes α))
+    (h : sjrun {} evs = some (s, obs)) : ∀ st x, (st, x) ∈ obs → x = .stmt st :=
+  (sinv_run evs {} s obs sinv_init h).2
+
+/-- **The two tables agree whenever nothing is outstanding**: at every quiescent point the proxy's registry shows
+exactly the prepared statements the database has. -/
+theorem sql_registry_in_step {α : Type} (evs : List (SJEv α)) (s : SJoint α) (obs : List (α × RowRes α))
+    (h : sjrun {} evs = some (s, obs)) (hd : s.j.d = []) : s.preg = s.dreg := by
+  have := (sinv_run evs {} s obs sinv_init h).1.reg
+  rw [this, hd]
+  rfl
+
+/-- **Pipelining a re-definition behind an EXECUTE is outside the theorem** (why `sjstep` has the client rule):
+the proxy resolves `EXECUTE q` when the ROW arrives. If the client sends `PREPARE q AS 1; EXECUTE q; DEALLOCATE q;
+PREPARE q AS 2` without waiting, then at the moment the database – which has completed only the first PREPARE –
+returns the rows of `EXECUTE q` (statement 1), the proxy's registry already binds `q` to statement 2. -/
+theorem overtake_counterexample :
+    let evs : List (SClEv Nat Nat) := [.query (.prepare "q" 1) false, .query (.execute "q") false,
+      .query (.deallocate "q") false, .query (.prepare "q" 2) false]
+    let st := evs.foldl (fun st ev => match sclStep st ev with | some (st', _) => st' | none => st) ({} : SState Nat Nat)
+    -- queue after the first PREPARE has been answered (CommandComplete, ReadyForQuery)
+    rowResolve st.reg (dbStep (dbStep st.pending .done) .ready) = .stmt 2 ∧
+    resolveCmd (regEff (fun _ => (none : Option Nat)) (.prepare "q" 1)) (.execute "q") = .stmt 1 := by decide
+
+/-- **A PREPARE the database rejects leaves the name bound in the proxy** (known finding
+`sql-prepare-rejected-name-sticky`, why `sjstep` lets a PREPARE of a free name fail never): the statement is
+registered when it is SENT. If the database rejects `PREPARE q AS 1` (unknown table …) and then accepts
+`PREPARE q AS 2`, the proxy refuses the second one as "already stored" and processes the rows of `EXECUTE q`
+(statement 2 in the database) with the settings of statement 1. -/
+theorem rejected_prepare_counterexample :
+    let evs : List (SClEv Nat Nat) := [.query (.prepare "q" 1) false, .query (.prepare "q" 2) false, .query (.execute "q") false]
+    let st := evs.foldl (fun st ev => match sclStep st ev with | some (st', _) => st' | none => st) ({} : SState Nat Nat)
+    -- the database: first PREPARE failed (table unchanged), second completed
+    let dreg := regEff (fun _ => (none : Option Nat)) (.prepare "q" 2)
+    rowResolve st.reg (st.pending.drop 4) = .stmt 1 ∧ resolveCmd dreg (.execute "q") = .stmt 2 := by decide
+
 /-! ## non-vacuity: the hypotheses are satisfiable, the theorems say something -/
+
+/-- `sql_prepare_pairs` on the run of the seeded change C04-6: `PREPARE q AS 1; EXECUTE q; DEALLOCATE q;
+PREPARE q AS 2; EXECUTE q` – same query text `EXECUTE q` twice, nothing with rows in between: the first row is
+processed with statement 1, the second with statement 2; then `DEALLOCATE ALL`, `PREPARE q AS 3`, `EXECUTE q`
+pipelined with a plain statement. -/
+example :
+    (sjrun ({} : SJoint Nat)
+      [.send (.query (.prepare "q" 1)), .send .sync, .done, .ready,
+       .send (.query (.execute "q")), .send .sync, .row, .done, .ready,
+       .send (.query (.deallocate "q")), .send .sync, .done, .ready,
+       .send (.query (.prepare "q" 2)), .send .sync, .done, .ready,
+       .send (.query (.execute "q")), .send .sync, .row, .row, .done, .ready,
+       .send (.query .deallocateAll), .send .sync, .done, .ready,
+       .send (.query (.prepare "q" 3)), .send .sync,
+       .send (.query (.execute "q")), .send .sync, .send (.query (.plain 7)), .send .sync,
+       .done, .ready, .row, .done, .ready, .row, .done, .ready]).map (·.2) =
+      some [(1, .stmt 1), (2, .stmt 2), (2, .stmt 2), (3, .stmt 3), (7, .stmt 7)] := by decide
+
+/-- the client rule of `sjstep` is a restriction: re-defining a name behind an unanswered EXECUTE is not a run -/
+example :
+    sjrun ({} : SJoint Nat)
+      [.send (.query (.prepare "q" 1)), .send .sync, .done, .ready,
+       .send (.query (.execute "q")), .send .sync, .send (.query (.deallocate "q"))] = none := by decide
+
+/-- the same session on the proxy's own state machine (`sclStep`, the registry with portals and unique ids): the
+DataRow of the second `EXECUTE q` is resolved to statement 2, and `PREPARE` of a bound name does not overwrite. -/
+example :
+    let run (evs : List (SClEv Nat Nat)) := evs.foldl (fun st ev => match sclStep st ev with | some (st', _) => st' | none => st) ({} : SState Nat Nat)
+    let st := run [.query (.prepare "q" 1) false, .query (.execute "q") false, .query (.deallocate "q") false,
+                   .query (.prepare "q" 2) false, .query (.execute "q") false]
+    rowResolve st.reg (st.pending.drop 8) = .stmt 2 ∧
+    (run [.query (.prepare "q" 1) false, .query (.prepare "q" 2) false]).reg.view "q" = some 1 := by decide
+
 
 /-- `read_restores` / `write_never_plain` with concrete keys, the hash-based toy instance of the crypto
 operations (which satisfies `SealLaws` and `SealLen`), an AcraBlock column and the literal `'\x0909'`. -/
